@@ -411,8 +411,9 @@ class MappingSchema(AbstractMappingSchema, Schema):
 
         nested_set(self.mapping, tuple(reversed(parts)), normalized_column_mapping)
         new_trie([parts], self.mapping_trie)
-        self._find_cache.pop((normalized_table, True), None)
-        self._find_cache.pop((normalized_table, False), None)
+        # A new or updated table can change the answer for any cached key (e.g. a partially
+        # qualified name may now resolve differently or become ambiguous), so drop them all.
+        self._find_cache.clear()
 
     def column_names(
         self,
